@@ -122,7 +122,9 @@ def run_case(case, g, tier, res):
                     if isinstance(it, str):
                         out.append(it)
                     elif isinstance(it, Num):
-                        out.append(repr(float(c.eval_in(mv, it.v))))
+                        from symx.symstr import render_num
+
+                        out.append(render_num(it, c.eval_in(mv, it.v)))
                     else:
                         out.append(chr(c.eval_in(mv, core.SymInt(it.e))))
                 return "".join(out)
